@@ -23,19 +23,44 @@ def units():
                       "trusted": ["harness virtual-I/O callbacks stand for the caller's SF_VIRTUAL_IO (header region stored, audio region a length)",
                                   "psf_log_printf compiled out in the container translation unit"]})
     # C10: open-for-write acceptance per container (real sf_format_check + real X_open + real header writer)
-    COMMON_STUBS = "STUB1 (pcm_init) STUB1 (ulaw_init) STUB1 (alaw_init) STUB1 (float32_init) STUB1 (double64_init) "
-    OPENS = {
-        "aiff": ("aiff.c", "aiff_open", "SF_FORMAT_AIFF", COMMON_STUBS + "STUB2 (dwvw_init, int) STUB1 (gsm610_init) STUB3 (aiff_ima_init)"),
-        "au": ("au.c", "au_open", "SF_FORMAT_AU", COMMON_STUBS + "STUB1 (g72x_init)"),
-    }
-    for cname, (cfile, openfn, cfmt, stubs) in OPENS.items():
+    # codec initialisers called by each container's open function but defined elsewhere: found mechanically in the
+    # source on every run and replaced by call-counting stand-ins (signatures from common.h)
+    import os, re
+    repo = os.environ.get("VERIF_REPO", "/repo")
+    protos = {}
+    try:
+        for m in re.finditer(r"^int\s+(\w+_init)\s*\((SF_PRIVATE\s*\*\s*psf[^)]*)\)\s*;", open(os.path.join(repo, "src", "common.h")).read(), re.M):
+            protos[m.group(1)] = m.group(2)
+    except OSError:
+        pass
+    CONTAINERS = [("aiff", "SF_FORMAT_AIFF", []), ("au", "SF_FORMAT_AU", []), ("wav", "SF_FORMAT_WAV", ["wavlike.c", "chunk.c", "strings.c", "broadcast.c", "cart.c", "id3.c"]),
+                  ("w64", "SF_FORMAT_W64", ["wavlike.c", "chunk.c", "strings.c", "broadcast.c", "cart.c"]),
+                  ("voc", "SF_FORMAT_VOC", []), ("svx", "SF_FORMAT_SVX", []),
+                  ("mat4", "SF_FORMAT_MAT4", []),
+                  ("htk", "SF_FORMAT_HTK", []), ("avr", "SF_FORMAT_AVR", []),
+                  ("raw", "SF_FORMAT_RAW", []), ("wve", "SF_FORMAT_WVE", []), ("mpc2k", "SF_FORMAT_MPC2K", [])]
+    OPENS = {}
+    for cname, cfmt, extra_link in CONTAINERS:
+        try:
+            txt = open(os.path.join(repo, "src", cname + ".c"), errors="replace").read()
+        except OSError:
+            continue
+        called = sorted(set(re.findall(r"\b(\w+_init)\s*\(psf", txt)))
+        defined = set(re.findall(r"^(\w+_init)\s*\(SF_PRIVATE", txt, re.M))
+        stubs = []
+        for fn in called:
+            if fn in defined or fn not in protos:
+                continue
+            stubs.append("int %s (%s) { g_init_calls ++ ; return 0 ; }" % (fn, protos[fn]))
+        OPENS[cname] = (cname + ".c", cname + "_open", cfmt, " ".join(stubs), extra_link)
+    for cname, (cfile, openfn, cfmt, stubs, extra_link) in OPENS.items():
         for ch in (1, 2, 3):
             U.append({"name": "open.%s.ch%d" % (cname, ch), "props": ["C10"], "harness": "hdr_open.harness.c", "entry": "h_open_write",
                       "dfcc": False, "function": "%s:%s (write mode) + sndfile.c:sf_format_check" % (cfile, openfn),
-                      "link_sources": ["common.c", "file_io.c", "sndfile.c"],
+                      "link_sources": ["common.c", "file_io.c", "sndfile.c"] + extra_link,
                       "defines": ["-DCH=%d" % ch, "-DCONTAINER_FILE=\"%s\"" % cfile, "-DOPEN_FN=%s" % openfn, "-DCONTAINER_FMT=%s" % cfmt,
-                                  "-DCODEC_STUBS=%s" % stubs],
-                      "cbmc_flags": ["--unwind", "80", "--unwindset", "v_write.0:1030", "--object-bits", "12"], "timeout": 1200, "tier": "quick" if ch in (1, 2) else "thorough",
+                                  "-DCODEC_STUBS=%s" % stubs] + (["-DNO_HEADER"] if cname == "raw" else []),
+                      "cbmc_flags": ["--unwind", "80", "--unwindset", "v_write.0:1030", "--object-bits", "12"], "timeout": 1200, "tier": "quick" if (ch == 1 or (ch == 2 and cname in ("aiff", "wav", "caf", "au"))) else "thorough",
                       "pre_gi_flags": ["--remove-function-body", "psf_log_printf"],
                       "kind": "proof (encoding and byte order symbolic over everything the real sf_format_check admits; channels enumerated)",
                       "trusted": ["codec initialisers replaced by call-counting stand-ins", "harness virtual-I/O callbacks"]})
@@ -45,5 +70,7 @@ def units():
 NOT_DECIDED = {
     "C04": ["containers other than AU have no pair lemma yet; G72x encodings in AU (frame count comes from the codec initialiser)"],
     "C11": ["containers other than AU; block codecs with a partly filled block"],
-    "C10": ["agreement of sf_format_check with the header writers beyond AU; enumeration commands"],
+    "C10": ["open-for-write acceptance of CAF, PVF, PAF, IRCAM, NIST, MAT5, RF64, SDS, XI (header writers with large zero padding, text formatting or private state: no unit yet)",
+            "the converse direction (what sf_format_check rejects fails to open) and the enumeration commands",
+            "sample rates above 2^20 (informational products such as bytes-per-second overflow int in some writers)"],
 }
